@@ -11,6 +11,13 @@ CHECKS = {
         "level_note": "trusts Go's recover to observe every panic of the synchronous decoder; runtime fatal errors would kill the child process and are reported as crashes by the driver",
         "design_ref": "3/C20",
     },
+    "C21": {
+        "level": "exploration",
+        "technique": "runtime monitoring: round-trip oracle + independent spec-table parser over generated packets; exhaustive for the short-topic bijection",
+        "level_text": "All 65536 short-topic IDs (exhaustive) and, per quick run, ~200k packets of all 28 types built through the public constructors with boundary sizes around the 255/256 header switch and up to MaxPayloadLength; each encoding is checked by an independent parser (length field, header form, field offsets) and decoded back.",
+        "level_note": "field equality is checked through the packets' exported fields/getters; trusts snref",
+        "design_ref": "3/C21",
+    },
     "C22": {
         "level": "exploration",
         "technique": "runtime monitoring: differential oracle (independent spec-table parser snref) on every datagram the decoder accepts",
